@@ -459,6 +459,74 @@ def layouts(ctx, model, tmp, count):
                 ctx.fail("NetCDF EEMSWrite fails with %s on a template the writer's frame is defined for (nothing is written)" % real[1], desc)
 
 
+def in_place_models(ctx, tmp):
+    """models that update a dataset in place: they read variables from a file and write them, with a derived one, back to that same file (the grid is taken
+    from another template) - named by the same or another spelling.  The order of the commands is free and the writer may be the only command asked: the
+    variables read are those of the dataset as it was, and the file ends up holding the listed results with their values (read back through the library)."""
+    import itertools
+    from netCDF4 import Dataset
+    from mpilot.program import Program, EEMS_NETCDF_LIBRARIES
+    rng = ctx.rng
+    shape = (3, 4)
+    A = numpy.ma.array(numpy.arange(12, dtype=float).reshape(shape) / 4 - 1, mask=numpy.zeros(shape, dtype=bool))
+    A[0, 1] = numpy.ma.masked
+    B = numpy.ma.array(numpy.arange(12, dtype=float).reshape(shape)[::-1] * 0.5, mask=numpy.zeros(shape, dtype=bool))
+    B[2, 2] = numpy.ma.masked
+    orders = list(itertools.permutations(range(4)))
+    picks = [(0, 1, 2, 3), (3, 2, 0, 1), (3, 0, 1, 2), (1, 3, 0, 2)] + rng.sample(orders, min(24, ctx.budget(1, 24)))
+    spellings = ["data.nc", "./data.nc", "sub/../data.nc", "ABS"]
+    n = 0
+    for order in picks:
+        for how in ("run", "writer-only"):
+            sp, rd = spellings[n % len(spellings)], spellings[(n // len(spellings)) % 2]
+            n += 1
+            d = os.path.join(tmp, "inplace%d" % (n % 3))
+            os.makedirs(os.path.join(d, "sub"), exist_ok=True)
+            path = os.path.join(d, "data.nc")
+            dims = make_template(os.path.join(d, "grid.nc"), shape, rng)
+            with Dataset(path, "w") as ds:
+                for dn, k in zip(dims, shape):
+                    ds.createDimension(dn, k)
+                for nm, arr in (("A", A), ("B", B)):
+                    v = ds.createVariable(nm, "f8", tuple(dims))
+                    v[:] = arr
+            out_name = path if sp == "ABS" else sp
+            cmds = ['A = EEMSRead(InFileName = "%s", InFieldName = "A")' % rd, 'B = EEMSRead(InFileName = "%s", InFieldName = "B")' % rd, "Total = Sum(InFieldNames = [A, B])",
+                    'Out = EEMSWrite(OutFileName = "%s", OutFieldNames = [B, Total, A], DimensionFileName = "grid.nc", DimensionFieldName = "elev")' % out_name]
+            src = "\n".join(cmds[i] for i in order) + "\n"
+            desc = {"source": src, "working_dir_holds": "data.nc with variables A, B on a 3 x 4 grid (one cell missing in each); grid.nc (template)",
+                    "evaluated_by": "Program.run()" if how == "run" else "asking only the writer for its result"}
+            ctx.case("nc-in-place %r %s" % (src, how), sample=None)
+            ctx.count("in_place_models")
+            try:
+                with numpy.errstate(all="ignore"):
+                    p = Program.from_source(src, libraries=EEMS_NETCDF_LIBRARIES, working_dir=d)
+                    if how == "run":
+                        p.run()
+                    else:
+                        p.commands["Out"].result
+            except Exception as e:     # noqa
+                try:
+                    with Dataset(path) as ds:
+                        left = sorted(ds.variables)
+                except Exception:      # noqa
+                    left = None
+                ctx.fail("a model that reads variables A, B of a dataset and writes B, Total, A back to the same file (as %r) fails: %s %s; the file now holds the variables %r" % (
+                    out_name, type(e).__name__, " / ".join(str(e).split("\n"))[:160], left), desc)
+                continue
+            with Dataset(path) as ds:
+                got = {nm: numpy.ma.masked_array(ds.variables[nm][:]) for nm in ("A", "B", "Total") if nm in ds.variables}
+            union = numpy.ma.getmaskarray(A) | numpy.ma.getmaskarray(B)
+            for nm, want in (("A", A), ("B", B), ("Total", A + B)):
+                g = got.get(nm)
+                if g is None:
+                    ctx.fail("the dataset updated in place does not hold the listed result %s (variables: %r)" % (nm, sorted(got)), desc)
+                    break
+                if g.shape != shape or not numpy.array_equal(numpy.ma.getmaskarray(g), union) or not numpy.array_equal(numpy.ma.getdata(g)[~union], numpy.ma.getdata(want)[~union]):
+                    ctx.fail("the dataset updated in place, variable %s read back: %r; the dataset held A = %r, B = %r" % (nm, g.tolist(), A.tolist(), B.tolist()), desc)
+                    break
+
+
 def run(ctx):
     ctx.check_proofs(["MPilot.Props.C18", "MPilot.Props.C18Layout"])
     model = common.Model()
@@ -703,6 +771,7 @@ def run(ctx):
                 break
     programs(ctx, tmp)
     layouts(ctx, model, tmp, ctx.budget(40, 1500))
+    in_place_models(ctx, tmp)
     grid_ladder(ctx, tmp)
     bare_relative_names(ctx, tmp)
     return ctx.finish(
